@@ -109,7 +109,7 @@ theorem mapPieces_spec (texts : List Text) (side side' : Side) (res : Nat) (hal 
 def Found (side : Side) (res : Nat) (source : List (Nat × Nat)) (pieces : List Piece) : Prop :=
   ranges pieces = srcRanges source ∧ ∀ p ∈ pieces, PieceIn side res p
 
-theorem simpleAll_spec (f : Frag) (res : Nat) (hf : f.b < f.e) :
+theorem simpleAll_spec (f : Frag) (res : Nat) :
     ∀ (source : List (Nat × Nat)) (ps : List Piece), (∀ s ∈ source, s.1 < s.2) →
       simpleAll f res source = some ps → Found [f] res source ps := by
   intro source
@@ -137,8 +137,8 @@ theorem simpleAll_spec (f : Frag) (res : Nat) (hf : f.b < f.e) :
             rw [hi, h2] at h
             simp only [Option.some.injEq] at h
             subst h
-            have hu : ∀ r1 r2, (none : Option (Nat × Nat)) = some (r1, r2) → ¬ r1 < ib := by intro _ _ h; cases h
-            obtain ⟨h1, h2', h3, h4, h5, h6⟩ := inter_usable hi hlt hf hu
+            have hu : ∀ r1 r2, (none : Option (Nat × Nat)) = some (r1, r2) → ¬ r1 ≤ ib := by intro _ _ h; cases h
+            obtain ⟨h1, h2', h3, h4, h5, h6⟩ := inter_usable hi hlt hu
             have h7 : ie = te := by
               rcases h6 with ⟨_, h6⟩ | ⟨h6, _⟩
               · exact h6
@@ -204,7 +204,7 @@ theorem mapSides_spec (texts : List Text) (via : List Side) (src res : Nat) (sid
 
 /-- the matching stage of `transpose`, both branches -/
 theorem transpose_found (via : List Side) (simple : Bool) (res : Nat) (source : List (Nat × Nat)) (bi : Option Nat)
-    (out : List (List Frag)) (hfr : ∀ s ∈ via, ∀ f ∈ s, f.b < f.e) (hne : ∀ s ∈ source, s.1 < s.2)
+    (out : List (List Frag)) (hne : ∀ s ∈ source, s.1 < s.2)
     (h : transpose via simple res source bi = .ok out) :
     ∃ src side pieces, sourceSide via res bi = some src ∧ via[src]? = some side ∧ pieces ≠ [] ∧
       Found side res source pieces ∧ mapSides via src res pieces 0 via = .ok out := by
@@ -231,7 +231,7 @@ theorem transpose_found (via : List Side) (simple : Bool) (res : Nat) (source : 
             cases pieces with
             | nil => cases h
             | cons p ps =>
-              exact ⟨src, [f], p :: ps, rfl, hv, by simp, simpleAll_spec f res (hfr _ hside f (by simp)) source _ hne hf, h⟩
+              exact ⟨src, [f], p :: ps, rfl, hv, by simp, simpleAll_spec f res source _ hne hf, h⟩
         | [], _, _, h => cases h
         | _ :: _ :: _, _, _, h => cases h
       | false =>
@@ -243,7 +243,7 @@ theorem transpose_found (via : List Side) (simple : Bool) (res : Nat) (source : 
           cases pieces with
           | nil => cases h
           | cons p ps =>
-            obtain ⟨a, b⟩ := consumeAll_spec side res (hfr _ hside) source _ hne hf
+            obtain ⟨a, b⟩ := consumeAll_spec side res source _ hne hf
             exact ⟨src, side, p :: ps, rfl, hv, by simp, ⟨a, b⟩, h⟩
 
 /-! ## the property -/
@@ -252,22 +252,22 @@ theorem transpose_found (via : List Side) (simple : Bool) (res : Nat) (source : 
 characters in the same order (a selection running over adjacent fragments is cut at the fragment borders,
 nothing is lost and nothing added), and every piece lies inside a fragment of the source side. -/
 theorem source_side_spells_source (via : List Side) (simple : Bool) (res : Nat) (source : List (Nat × Nat))
-    (bi : Option Nat) (out : List (List Frag)) (hfr : ∀ s ∈ via, ∀ f ∈ s, f.b < f.e)
+    (bi : Option Nat) (out : List (List Frag))
     (hne : ∀ s ∈ source, s.1 < s.2) (h : transpose via simple res source bi = .ok out) :
     ∃ src side pieces, sourceSide via res bi = some src ∧ via[src]? = some side ∧
       ranges pieces = srcRanges source ∧ (∀ p ∈ pieces, PieceIn side res p) := by
-  obtain ⟨src, side, pieces, h1, h2, _, ⟨h3, h4⟩, _⟩ := transpose_found via simple res source bi out hfr hne h
+  obtain ⟨src, side, pieces, h1, h2, _, ⟨h3, h4⟩, _⟩ := transpose_found via simple res source bi out hne h
   exact ⟨src, side, pieces, h1, h2, h3, h4⟩
 
 /-- **C16 (failure).** If some character of the source lies in no fragment of the source side, transposing
 fails: no result is produced for part of the source. -/
 theorem uncovered_source_fails (via : List Side) (simple : Bool) (res : Nat) (source : List (Nat × Nat))
-    (bi : Option Nat) (hfr : ∀ s ∈ via, ∀ f ∈ s, f.b < f.e) (hne : ∀ s ∈ source, s.1 < s.2)
+    (bi : Option Nat) (hne : ∀ s ∈ source, s.1 < s.2)
     (hunc : ∃ s ∈ source, ∃ x, s.1 ≤ x ∧ x < s.2 ∧
       ∀ (src : Nat) (side : Side), sourceSide via res bi = some src → via[src]? = some side → ∀ f ∈ side, ¬ (f.res = res ∧ f.b ≤ x ∧ x < f.e)) :
     ∀ out, transpose via simple res source bi ≠ .ok out := by
   intro out h
-  obtain ⟨src, side, pieces, h1, h2, h3, h4⟩ := source_side_spells_source via simple res source bi out hfr hne h
+  obtain ⟨src, side, pieces, h1, h2, h3, h4⟩ := source_side_spells_source via simple res source bi out hne h
   obtain ⟨s, hs, x, hx1, hx2, hno⟩ := hunc
   have hx : x ∈ srcRanges source := by
     unfold srcRanges
@@ -298,11 +298,7 @@ theorem transposed_text_identical (texts : List Text) (via : List Side) (simple 
       (∀ (i : Nat) (o : List Frag) (sd : Side), out[i]? = some o → via[i]? = some sd → i ≠ src →
         ∀ (n : Nat) (g : Frag), o[n]? = some g → ∃ (p : Piece) (f' : Frag), pieces[n]? = some p ∧ sd[p.j]? = some f' ∧ g.res = f'.res ∧
           f'.b ≤ g.b ∧ g.e ≤ f'.e ∧ g.e - g.b = p.ae - p.ab) := by
-  have hfr : ∀ s ∈ via, ∀ f ∈ s, f.b < f.e := by
-    intro s hs f hf
-    obtain ⟨j, hj⟩ := List.getElem?_of_mem hf
-    exact ((hal s hs s hs).2 j f f hj hj).2.1.1
-  obtain ⟨src, side, pieces, h1, h2, _, ⟨h3, h4⟩, h5⟩ := transpose_found via simple res source bi out hfr hne h
+  obtain ⟨src, side, pieces, h1, h2, _, ⟨h3, h4⟩, h5⟩ := transpose_found via simple res source bi out hne h
   have hside : side ∈ via := List.mem_of_getElem? h2
   obtain ⟨outs, ho, hl, ht, hs, hg⟩ := mapSides_spec texts via src res side pieces h4 via 0 (fun s hs => hal side hside s hs)
   rw [h5] at ho
